@@ -550,6 +550,56 @@ def collector_beside_backup(ctx, n):
             ctx.nontrivial(json.dumps([c["id"], c["j"]]))
 
 
+def failing_deletes(ctx, n):
+    """A delete that cannot remove one of the named versions (it does not exist, or the storage refuses) removes no block
+    that a version still present refers to."""
+    cases = []
+    for t in range(n):
+        trees = []
+        for j in range(3):
+            tr = scen.small_tree(ctx.rng)
+            tr["c"][f"only{j}"] = {"k": "f", "data": gen.rand_bytes(ctx.rng, 6 + j).hex(), "mode": 0o644, "mtime": 10**18 + j}
+            trees.append(tr)
+        steps = [{"op": "init"}]
+        for tr in trees:
+            steps += [{"op": "mktree", "path": "src", "tree": tr}, {"op": "backup", "opts": scen.small_opts(ctx.rng)}]
+        variant = t % 3
+        if variant == 0:
+            d = {"op": "delete", "bands": [7, ctx.rng.choice([0, 1])]}                     # an absent version named first
+        elif variant == 1:
+            b = ctx.rng.choice([0, 1])
+            d = {"op": "delete", "bands": [b], "plan": {"rules": [["RemoveDirAll", f"b{b:04d}", 0, ctx.rng.choice(["PermissionDenied", "Other", "NotFound"])]]}}
+        else:
+            d = {"op": "delete", "bands": [1, 0], "plan": {"rules": [["RemoveDirAll", "b0001", 0, "Other"]]}}
+        steps += [{"op": "arch"}, d, {"op": "arch"}]
+        cases.append({"id": f"fd{t}", "steps": steps})
+    res = ctx.cvh_run(cases)
+    for c in cases:
+        r = res.get(c["id"])
+        ctx.count()
+        small = {"steps": c["steps"]}
+        if r is None or r[-2].get("panic"):
+            ctx.oracle_fail("writeonce/panic", "a failing delete crashed or hung", small)
+            continue
+        dec = scen.decode(r[-1]["arch"])
+        bad = None
+        for bid, band in dec["bands"].items():
+            for e in scen.band_entries(band):
+                if e.get("kind") == "File":
+                    c_ = scen.entry_content(e, dec["blocks"])
+                    if isinstance(c_, str):
+                        bad = f"version b{bid:04d} is still there but {e['apath']} refers to a block that is gone ({c_})"
+                        break
+            if bad:
+                break
+        if bad:
+            ctx.oracle_fail("writeonce/delete-removed-referenced-block", f"delete {c['steps'][-2]} ended with {r[-2].get('result')} "
+                                                                         f"({json.dumps(r[-2].get('err'))[:120]}): {bad}", small)
+            continue
+        ctx.dist("failing_delete_" + str(r[-2].get("result")))
+        ctx.nontrivial("failing-delete:" + c["id"])
+
+
 def exclusive_creation(ctx, rounds):
     """The atomicity the interleaving model (run2: whole transport operations) takes for granted: of several writers creating
     the same fresh path with CreateNew at the same moment, exactly one wins and the file holds the winner's bytes."""
@@ -579,13 +629,14 @@ def run(ctx):
                        "before/after every operation (nothing pre-existing altered or removed by backup; fresh band id; no path written twice; "
                        "delete removes only requested bands, unreferenced blocks, its lock) + exact L4 trace correspondence; (c) two racing "
                        "backups under explicit schedules; (c') a gc / delete with a whole backup of another tree run after its first j storage operations: nothing a remaining "
-                       "version refers to is removed; (d) exclusive creation under contention: several writers creating the same new path at once, "
+                       "version refers to is removed; (c'') deletes that cannot remove a named version (absent, or the storage refuses): no block of a version still present goes; (d) exclusive creation under contention: several writers creating the same new path at once, "
                        "thousands of rounds: exactly one wins. non-trivial = distinct call sequence / history / schedule")
     transport_contract(ctx, 60 if quick else 2000)
     history_write_once(ctx, 14 if quick else 300, 7 if quick else 16)
     faults_in_band_creation(ctx, 3 if quick else 40)
     racing_backups(ctx, 30 if quick else 600)
     collector_beside_backup(ctx, 3 if quick else 30)
+    failing_deletes(ctx, 9 if quick else 90)
     exclusive_creation(ctx, 4000 if quick else 60000)
     ctx.assumptions += ["the local transport is the one exercised; S3/SFTP are outside (they already refuse an existing path)",
                         "a zero-length leftover of a killed write may be completed (documented exception)"]
